@@ -286,6 +286,9 @@ def gate(ctx) -> None:
 
 
 def run(ctx) -> None:
+    from . import C03 as _c03
+
+    _c03.copy_ports(ctx)  # a copied segment has the topology of the original: output i -> the subscriber's own port
     owners(ctx)
     chains_and_guards(ctx)
     r_txn(ctx)
